@@ -194,16 +194,23 @@ func (Identity) JSONSchemaExtend(js *jsonschema.Schema) {
 }
 
 // NormalizeIdentity removes any whitespace or separation characters and ensures all letters are
-// uppercase.
+// uppercase. Leading country codes, including the alternatives provided, are removed until none
+// is left, so that normalizing an identity a second time never changes it again.
 func NormalizeIdentity(tID *Identity, altCodes ...l10n.Code) {
 	if tID == nil {
 		return
 	}
 	code := strings.ToUpper(tID.Code.String())
 	code = IdentityCodeBadCharsRegexp.ReplaceAllString(code, "")
-	code = strings.TrimPrefix(code, string(tID.Country))
-	for _, alt := range altCodes {
-		code = strings.TrimPrefix(code, string(alt))
+	for {
+		prev := code
+		code = strings.TrimPrefix(code, string(tID.Country))
+		for _, alt := range altCodes {
+			code = strings.TrimPrefix(code, string(alt))
+		}
+		if code == prev {
+			break
+		}
 	}
 	tID.Code = cbc.Code(code)
 }
